@@ -12,6 +12,7 @@ import (
 	"github.com/0xReLogic/Helios/internal/config"
 	"github.com/0xReLogic/Helios/internal/loadbalancer"
 	"github.com/0xReLogic/Helios/verifharness/lab"
+	"pgregory.net/rapid"
 )
 
 // pool drives one real LoadBalancer through its exported API (plus the read-only VerifBackends
@@ -36,6 +37,18 @@ func eff(w int) int {
 		return 1
 	}
 	return w
+}
+
+// rrWeights: round_robin takes no notice of configured weights (the statement gives every backend
+// one of every n requests); a third of the round_robin pools carry drawn non-uniform weights.
+func rrWeights(rt *rapid.T, n int) []int {
+	ws := lab.Ones(n)
+	if rapid.IntRange(0, 2).Draw(rt, "rr_weighted") == 0 {
+		for i := range ws {
+			ws[i] = rapid.SampledFrom([]int{0, 1, 2, 3, 5, 10}).Draw(rt, "rr_weight")
+		}
+	}
+	return ws
 }
 
 func newPool(strategy string, weights []int) (*pool, error) {
